@@ -31,6 +31,10 @@ pub enum ModelParseError {
     #[error("Failed to parse pattern")]
     PatternParseError,
 
+    #[error("NUM_STREAMS does not match the number of entries in STREAM_TYPE")]
+    StreamCountMismatch,
+    #[error("A length written in the header is too large")]
+    LengthOverflow,
     #[error("Stream was not found")]
     StreamNotFound,
     #[error("Position was not found")]
@@ -67,6 +71,10 @@ pub fn parse_htsvoice(input: &[u8]) -> Result<Voice, ModelParseError> {
     let global: Global = parse_header(&in_global)?;
     let stream: Stream = parse_header(&in_stream)?;
     let position: Position = parse_header(&in_position)?;
+
+    if global.num_streams != global.stream_type.len() {
+        return Err(ModelParseError::StreamCountMismatch);
+    }
 
     let (duration_model, stream_models) = parse_data_section(in_data, &global, &stream, &position)?;
 
@@ -119,7 +127,10 @@ fn parse_data_section(
         input,
         position.duration_tree,
         position.duration_pdf,
-        global.num_states * 2,
+        global
+            .num_states
+            .checked_mul(2)
+            .ok_or(ModelParseError::LengthOverflow)?,
     )?;
 
     let stream_models: Vec<StreamModels> = global
@@ -139,8 +150,12 @@ fn parse_data_section(
                 input,
                 pos.stream_tree,
                 pos.stream_pdf,
-                stream_data.vector_length * stream_data.num_windows * 2
-                    + (stream_data.is_msd as usize),
+                stream_data
+                    .vector_length
+                    .checked_mul(stream_data.num_windows)
+                    .and_then(|len| len.checked_mul(2))
+                    .and_then(|len| len.checked_add(stream_data.is_msd as usize))
+                    .ok_or(ModelParseError::LengthOverflow)?,
             )?;
 
             let gv_model = if stream_data.use_gv {
@@ -148,7 +163,10 @@ fn parse_data_section(
                     input,
                     pos.gv_tree.ok_or(ModelParseError::UseGvError)?,
                     pos.gv_pdf.ok_or(ModelParseError::UseGvError)?,
-                    stream_data.vector_length * 2,
+                    stream_data
+                        .vector_length
+                        .checked_mul(2)
+                        .ok_or(ModelParseError::LengthOverflow)?,
                 )?;
                 Some(gv_model)
             } else {
